@@ -106,6 +106,9 @@ def common_spec(rng, tier, controls=True, limits=False):
         # rules that set a valve setting in THEN and ELSE: every clause has its own unit conversion in the INP writer and its own
         # hidden "activate the valve" companion in the simulator
         ctrlgen.add_random_controls(spec, rng, n=(1, 1), kinds=('rule_setting',), offgrid=0.3)
+    if side.random() < 0.12:
+        # a control-valve station (Active valve with a normally closed parallel by-pass) as the only way into a zone without storage
+        gnet.add_valve_station(spec, side)
     if controls and side.random() < (0.6 if o['start_clocktime'] else 0.2):
         ctrlgen.add_random_controls(spec, side, n=(1, 2), kinds=('clock', 'rule_clock', 'rule_clock'), offgrid=0.3)
     # closing a bridge cuts junctions off from every source: EPANET then reports 'disconnected' heads of -1e6 while WNTR zeroes
